@@ -25,14 +25,25 @@ def main():
     root = os.environ.get("SEEDED_ROOT", "/tmp/wt")
     out_path = os.environ.get("SEEDED_OUT", "/verif/selftest/seeded_results.json")
     results = json.load(open(out_path)) if os.path.exists(out_path) else {}
-    for wt in sorted(glob.glob(root + "/C*")):
-        cid = os.path.basename(wt)
-        for n in (1, 2):
-            key = "%s-%d" % (cid, n)
-            if only and key not in only and cid not in only:
-                continue
+    for wt in sorted(glob.glob(root + "/*")):
+        base = os.path.basename(wt)
+        for n in range(1, 7):
             patch = os.path.join(wt, "_out", "patch%d.diff" % n)
             if not os.path.exists(patch):
+                continue
+            if base.startswith("C") and base[1:].isdigit():
+                cid = base
+            else:
+                # cross-cutting rounds: the property is named in metaN.json
+                try:
+                    prop = json.load(open(os.path.join(wt, "_out", "meta%d.json" % n))).get("property", "")
+                except Exception:
+                    prop = ""
+                import re
+                m = re.search(r"C\d\d", prop)
+                cid = m.group(0) if m else "C01"
+            key = "%s-%d" % (base, n) if base != cid else "%s-%d" % (cid, n)
+            if only and key not in only and cid not in only and base not in only:
                 continue
             r = results.get(key, {})
             # 1. confirm in the worktree
@@ -76,6 +87,7 @@ def main():
             results[key] = r
             json.dump(results, open(out_path, "w"), indent=1)
             caught = [c for c, v in r["checks"].items() if v == 1]
+            r["property"] = cid
             print("%s tests_pass=%s demo(with/without)=%s/%s own=%s caught_by=%s" % (key, r.get("tests_pass_with_patch"), r.get("demo_with_patch"), r.get("demo_without_patch"), r["checks"].get(cid), caught), flush=True)
 
 
